@@ -523,7 +523,9 @@ func (s *Subscriber) SyncAdChain(ctx context.Context, peerInfo peer.AddrInfo, op
 			log.Infow("cid to sync to is the stop node. Nothing to do")
 			return nextCid, nil
 		}
-	} else if s.firstSyncDepth != 0 && opts.depthLimit == 0 {
+	} else if s.firstSyncDepth != 0 && opts.depthLimit == 0 && s.GetLatestSync(peerInfo.ID) == nil {
+		// The first sync with a new publisher. A resync also has no stop
+		// link, but a publisher that has a latest sync is not new.
 		depthLimit = recursionLimit(s.firstSyncDepth)
 	}
 
